@@ -588,6 +588,22 @@ func (x *Unit) invoke1(st *State, pc *preparedCall, n int) []Val {
 	name := callee.FullName()
 	// at-call clauses of the caller
 	x.atCall(st, pc, callee.Name(), x.srcOf(call.Fun))
+	if pc.iface && pc.recv != nil && pc.recv.Sort == SIface && x.inSpec == 0 && x.block != nil && x.block.Flags["nilsafe"] && x.inlineDepth == 0 {
+		// a method call on a nil interface value panics
+		if se, ok := ast.Unparen(call.Fun).(*ast.SelectorExpr); ok {
+			x.oblige(st, "nil", x.srcOf(se.X), Cmp(">", IfaceTyp(pc.recv.T), IntLit(0)), se.X)
+			x.assume(st, Cmp(">", IfaceTyp(pc.recv.T), IntLit(0)))
+		}
+	}
+	if !pc.iface && pc.recv != nil && pc.recv.Sort == SInt && callee.Pkg() != nil && !strings.HasPrefix(callee.Pkg().Path(), modulePath) &&
+		!strings.HasPrefix(callee.Pkg().Path(), "go.uber.org/zap") { // logging is abstracted away entirely (assumed not to panic)
+		// pointer-receiver methods of library types dereference their receiver
+		if _, isPtr := under(pc.recv.Typ).(*types.Pointer); isPtr {
+			if se, ok := ast.Unparen(call.Fun).(*ast.SelectorExpr); ok {
+				x.nilCheck(st, pc.recv.T, se.X)
+			}
+		}
+	}
 	if pc.iface {
 		recvT := pc.recv.Typ
 		if b := x.eng.ifaceBlock(recvT, callee.Name()); b != nil {
